@@ -375,6 +375,7 @@ type schedObs struct {
 	unexpected []string // a task entered Run that the reference does not expect (C02-style)
 	missing    []string // C04/C03: expected task did not start while others were held
 	elapsed    time.Duration
+	inner      map[int][2][]int // nested stage -> final statuses and run counts of its inner stages
 }
 
 const schedPause = 500 * time.Microsecond
@@ -596,6 +597,24 @@ func runSchedCase(p *schedPlan) (obs *schedObs, rel [][]string, buildErr error) 
 		r.mu.Lock()
 		obs.runs[i] = r.entered[name]
 		r.mu.Unlock()
+	}
+	obs.inner = map[int][2][]int{}
+	for i := 0; i < c.n; i++ {
+		if c.nested == nil || c.nested[i] == nil {
+			continue
+		}
+		nc := c.nested[i]
+		st, runs := make([]int, nc.n), make([]int, nc.n)
+		for k := 0; k < nc.n; k++ {
+			name := fmt.Sprintf("%d.%d", i, k)
+			if sg := all.stages[name]; sg != nil {
+				st[k] = int(sg.ReadStatus())
+			}
+			r.mu.Lock()
+			runs[k] = r.entered[name]
+			r.mu.Unlock()
+		}
+		obs.inner[i] = [2][]int{st, runs}
 	}
 	return obs, rel, nil
 }
